@@ -13,6 +13,7 @@ import TnVerif.Model.Dual
 import TnVerif.Model.Ortho
 import TnVerif.Model.Round
 import TnVerif.Model.RoundTT
+import TnVerif.Model.OrthSweep
 import TnVerif.Generated
 import TnVerif.Model.Maxvol
 import TnVerif.Model.TTMatrix
@@ -337,8 +338,15 @@ def run (cmd : String) : PM String := do
         return "ok " ++ showTensor ((t2.atPair (leftOrthPair qm rm) mu).memo)
       else
         return "ok " ++ showTensor ((t2.atPair (rightOrthPair qm rm) (mu - 1)).memo)
-  | "round_sweep" => do
+  | "round_sweep" | "round_full" => do
       let eps ← pQ
+      -- round_full: the orthogonalisation sweep first, with its recorded QR answers
+      let mut qrs : Array (QRAns Rat) := #[]
+      if cmd == "round_full" then
+        let nqr ← pNat
+        for _ in [0:nqr] do
+          let qm ← pMat; let rm ← pMat
+          qrs := qrs.push { k := qm.cols, Q := fun row c => (qm.f row c).v, Rm := fun c d => (rm.f c d).v }
       let nsteps ← pNat
       let mut answers : Array (SVDAns Rat × Nat) := #[]
       for _ in [0:nsteps] do
@@ -352,7 +360,9 @@ def run (cmd : String) : PM String := do
                                 Vh := fun l i b => if l < n ∧ i < s ∧ b < r1 then (vh.getD ((l * s + i) * r1 + b) 0).v else 0 }
         answers := answers.push (A, rmax)
       let t ← pTensor
-      let rev := (t.map modeRat).reverse
+      -- re-materialise after the orthogonalisation sweep (closures would nest)
+      let swept := (leftSweep (t.map modeRat) qrs.toList).map fun m => modeRat (tabMode m)
+      let rev := swept.reverse
       match rev with
       | [] => return "err empty"
       | cur :: rest =>
